@@ -42,6 +42,7 @@ type VhEvent struct {
 	Slot    int
 	Outcome int
 	OutLen  int
+	Depth   int // depth of the innermost frame when the child was evaluated
 }
 
 var (
@@ -120,7 +121,7 @@ func vhSummary(e *Evaluator, id int) int {
 	n := len(VhLog)
 	if n >= vhBudget {
 		// unwinding bound: a summarised loop condition could stay truthy forever
-		VhLog = append(VhLog, VhEvent{id, VhExit, vhOut.Len()})
+		VhLog = append(VhLog, VhEvent{id, VhExit, vhOut.Len(), e.stackTop.depth})
 		return VhExit
 	}
 	o := vh.Choose("o"+vhItoa(n), vhNOutcomes)
@@ -131,7 +132,7 @@ func vhSummary(e *Evaluator, id int) int {
 	if o == VhReturn && !slot.inFn {
 		vh.Assume(false)
 	}
-	VhLog = append(VhLog, VhEvent{id, o, vhOut.Len()})
+	VhLog = append(VhLog, VhEvent{id, o, vhOut.Len(), e.stackTop.depth})
 	return o
 }
 
@@ -183,6 +184,8 @@ type VhStep struct {
 	DepthOK     bool
 	OutLenAfter int
 	Skipped     bool // node kind cannot occur in this context (parser guarantee)
+	D           int  // the (symbolic) depth of the entry frame
+	Limit       int  // the call depth limit
 }
 
 var VhNodeKinds = []string{
@@ -209,7 +212,7 @@ func VhRunStep(kind string, inLoop, inFn bool, budget int) VhStep {
 
 	same := func(id int, val int) int { vhSlotDef(id, &vhSlot{inLoop, inFn, val, ""}); return id }
 	loop := func(id int) int { vhSlotDef(id, &vhSlot{true, inFn, vhValBool, ""}); return id }
-	step := VhStep{Kind: kind, InLoop: inLoop, InFn: inFn}
+	step := VhStep{Kind: kind, InLoop: inLoop, InFn: inFn, D: d, Limit: callDepthLimit}
 	identV := &ExprIdentifier{token: Token{Tag: Ident, Pos: 0, Len: 1}}
 	identW := &ExprIdentifier{token: Token{Tag: Ident, Pos: 2, Len: 1}}
 	tok := func(tag TokenTag) Token { return Token{Tag: tag} }
